@@ -170,6 +170,32 @@ def check_own_variables(acc: Acc, ctx: Ctx) -> None:
         acc.violate("shared-variables", {}, case, 8.5, vg, f"unloading one term changed another: g={vg}")
 
 
+def check_name_clashes(acc: Acc, ctx: Ctx) -> None:
+    """`x` is reserved, and a term's own variables may not shadow engine variables: ValueError, never a silent pick."""
+    case = {"formula": "x + i", "family": "variables", "tokens": ["x", "+", "i"], "postfix": "x i +"}
+    ctx.iv.value = 0.5
+    scenarios = {
+        "own-variable-named-x": lambda: fl.Function("f", "x + 1.000", ctx.engine, variables={"x": 2.0}, load=True).membership(1.0),
+        "own-variable-shadows-engine-variable": lambda: fl.Function("f", "x + i", ctx.engine, variables={"i": 2.0}, load=True).membership(1.0),
+        "engine-variable-named-x": lambda: fl.Function("f", "x + 1.000", fl.Engine("e", input_variables=[fl.InputVariable("x")]), load=True).membership(1.0),
+    }
+    for name, fn in scenarios.items():
+        acc.case(name, nontrivial=True)
+        acc.transitions += 1
+        try:
+            got = repr(fn())
+        except ValueError:
+            continue
+        except Exception as ex:  # noqa: BLE001
+            got = f"{type(ex).__name__}: {ex}"
+        acc.violate("name-clash-not-refused", {"scenario": name}, case, "ValueError", got, f"{name}: expected ValueError, got {got}")
+    # without an engine the formula sees x and the term's own variables only
+    acc.case("no-engine", nontrivial=True)
+    got = float(fl.Function("f", "x * k", variables={"k": 3.0}, load=True).membership(2.0))
+    if got != 6.0:
+        acc.violate("value", {"family": "variables"}, case, 6.0, got, "a Function without an engine mis-evaluates x * k")
+
+
 def ill_formed_variants(toks: list[str]):
     for i, t in enumerate(toks):
         is_operand = t not in F.PREC and t not in ("(", ")", ",") and (t not in F.ARITY or F.ARITY[t] == 0)
@@ -306,6 +332,7 @@ def run_shard(tier: str, seed: int, shard):
                 acc.guard({"formula": " ".join(toks), "family": "ill-formed"}, run_ill_formed, acc, ctx, tree)
     if shard == ("c", 0, 2):
         acc.guard({"formula": "y ^ k", "family": "variables"}, check_own_variables, acc, ctx)
+        acc.guard({"formula": "x + i", "family": "variables"}, check_name_clashes, acc, ctx)
     if shard == ("d", 0, 8):
         toks = ["x", "-", "2.000", "^", ".-", "y", "^", "0.500", "%", "i"]
         t = F.parse(toks)
